@@ -4,6 +4,9 @@
    over every history (any length, any cluster size, any contents): acceptance is never assumed of a
    particular one.  Statements only; proofs in Abs/Exec.v, Abs/ExecThms.v.
 
+   The abstract protocol has static membership; it includes flushing, crash/restart, and snapshot
+   installation over logical logs (compaction is invisible), so histories with snapshots are covered.
+
    A history is a list of (event, observed projections).  The projection of a node is
    (term, vote, role, log, durable prefix length, commit index). *)
 From Coq Require Import List NArith Lia.
@@ -85,7 +88,7 @@ Definition sample_history : list (aevent * list (N * obs)) := [
  (ASend 1 (mkReq 2 1 0%nat 0 [] 0%nat), [(1,(mkO 2 1 Leader [(2,1)] 0%nat 0%nat))]);
  (ARecv 3 (mkReq 2 1 0%nat 0 [] 0%nat), [(3,(mkO 2 1 Follower [] 0%nat 0%nat))]);
  (AAck 1 3 0%nat, [(1,(mkO 2 1 Leader [(2,1)] 0%nat 0%nat))]);
- (ACrash 1, [(1,(mkO 2 1 Follower [] 0%nat 0%nat))])].
+ (ACrash 1 0%nat, [(1,(mkO 2 1 Follower [] 0%nat 0%nat))])].
 
 Example sample_history_accepted : exists s, run [1; 2; 3] sample_history = ROk s.
 Proof. eexists. vm_compute. reflexivity. Qed.
@@ -93,4 +96,25 @@ Proof. eexists. vm_compute. reflexivity. Qed.
 (* and the checker does reject: the same history in which node 3 grants its vote of term 2 twice *)
 Example double_vote_rejected :
   run [1; 2; 3] (firstn 5 sample_history ++ [(AVoteReq 3 2 2 true, [(3,(mkO 2 2 Follower [] 0%nat 0%nat))])]) = RFail 5 22.
+Proof. vm_compute. reflexivity. Qed.
+
+(* non-vacuity with a snapshot: node 1 leads term 2, replicates its first entry to node 2, commits it,
+   and node 3 - which never saw the entry - installs node 1's snapshot covering it *)
+Definition sample_history_snapshot : list (aevent * list (N * obs)) := [
+ (AStart 1, [(1,(mkO 2 1 Candidate [] 0%nat 0%nat));(2,(mkO 1 0 Follower [] 0%nat 0%nat));(3,(mkO 1 0 Follower [] 0%nat 0%nat))]);
+ (AVoteRes 1 1 true, [(1,(mkO 2 1 Candidate [] 0%nat 0%nat))]);
+ (AVoteReq 2 2 1 true, [(2,(mkO 2 1 Follower [] 0%nat 0%nat))]);
+ (AVoteRes 1 2 true, [(1,(mkO 2 1 Leader [(2,1)] 0%nat 0%nat))]);
+ (ASend 1 (mkReq 2 1 0%nat 0 [(2,1)] 0%nat), [(1,(mkO 2 1 Leader [(2,1)] 0%nat 0%nat))]);
+ (ARecv 2 (mkReq 2 1 0%nat 0 [(2,1)] 0%nat), [(2,(mkO 2 1 Follower [(2,1)] 1%nat 0%nat))]);
+ (AAck 1 2 1%nat, [(1,(mkO 2 1 Leader [(2,1)] 1%nat 1%nat))]);
+ (AInstall 3 2 1 [(2,1)] 1%nat, [(3,(mkO 2 0 Follower [(2,1)] 1%nat 1%nat))]);
+ (AAck 1 3 1%nat, [(1,(mkO 2 1 Leader [(2,1)] 1%nat 1%nat));(2,(mkO 2 1 Follower [(2,1)] 1%nat 0%nat));(3,(mkO 2 0 Follower [(2,1)] 1%nat 1%nat))])].
+
+Example sample_history_snapshot_accepted : exists s, run [1; 2; 3] sample_history_snapshot = ROk s.
+Proof. eexists. vm_compute. reflexivity. Qed.
+
+(* a snapshot whose contents were never acknowledged by a majority is rejected *)
+Example uncommitted_snapshot_rejected :
+  run [1; 2; 3] (firstn 5 sample_history_snapshot ++ [(AInstall 3 2 1 [(2,1)] 1%nat, [(3,(mkO 2 0 Follower [(2,1)] 1%nat 1%nat))])]) = RFail 5 104.
 Proof. vm_compute. reflexivity. Qed.
